@@ -27,9 +27,9 @@ CONFIG = dict(
         "query alphabet is the read-only public API named in the property; CLI printing is C18's",
     ],
     min_nontrivial={"quick": 1500, "thorough": 20000},
-    nshards={"quick": 8, "thorough": 16},
+    nshards={"quick": 16, "thorough": 16},
     timeout={"quick": 900, "thorough": 5400},
-    required_counters=("query_sequences", "answers_compared", "cross_process_cases"),
+    required_counters=("query_sequences", "answers_compared", "cross_process_cases", "order_sensitivity_cases"),
 )
 
 QUERIES = ["unparse", "ast_dump", "check_safety", "trace", "properties", "unsafe_imports",
@@ -115,6 +115,8 @@ def corpus(ctx):
     for label, data, _ in workload.vocab_fates(ctx):
         if data not in seen:
             seen.add(data)
+            if tier == "quick" and int(h(data)[:2], 16) % 4:
+                continue          # the full vocabulary goes through the order-sensitivity pass anyway
             yield (label, data)
     for v in workload.values(ctx.seed, nval):
         for label, data in gen.natural_pickles(v):
@@ -147,7 +149,29 @@ def run_shard(ctx):
             json.dump([[label, data.hex()] for label, data in corpus(ctx)], fh)
         agg.case("dump", False)
         return
-    if corpus_dir:
+    order = os.environ.get("VERIF_C13_ORDER")
+    if order:
+        order = "fwd" if ctx.shard == 0 else "rev"      # the two passes run side by side as two "shards"
+        # order-sensitivity pass: vocabulary corpus only, one process, forward or reversed
+        items = [("directed-" + n, asm.assemble(p)) for n, p in workload.directed_programs()]
+        class _All:           # the order pass is not hash-sharded: both processes see the whole vocabulary
+            tier, seed, shard, nshards = ctx.tier, ctx.seed, 0, 1
+
+            @staticmethod
+            def mine(b):
+                return True
+        small = ctx.tier == "quick"
+        items += [(lab, d) for lab, d, _ in workload.vocab_fates(
+            _All, framings=("none",), fates=("result", "pop", "in_list", "memo_reused") if small else None,
+            resolves=("GLOBAL", "INST") if small else None, callops=("REDUCE", "OBJ", "INST") if small else None)]
+        # import-only forms as well (a rule may key on the import alone)
+        for (m_, n_) in [(mm, nn) for mm in ("collections", "vp_sink", "os") for nn in gen.SPECIAL_NAMES]:
+            items.append(("voc-import", gen.push_global("GLOBAL", m_, n_) + b"."))
+        seen_o = set()
+        items = [x for x in items if not (x[1] in seen_o or seen_o.add(x[1]))]
+        if order == "rev":
+            items.reverse()
+    elif corpus_dir:
         with open(os.path.join(corpus_dir, f"corpus_{ctx.shard}.json")) as fh:
             items = [(label, bytes.fromhex(hx)) for label, hx in json.load(fh)]
     else:
@@ -158,11 +182,12 @@ def run_shard(ctx):
         except Exception:
             agg.count("refused_parse")
             continue
-        base = {q: answer(f, analysis, tracing, f.Pickled.load(data), q) for q in QUERIES}
+        qs_here = QUERIES if not order else ["check_safety", "unparse", "to_dict", "properties"]
+        base = {q: answer(f, analysis, tracing, f.Pickled.load(data), q) for q in qs_here}
         ch = h(data)
         nontrivial = not str(base["unparse"]).startswith("EXC:") and len(p0) >= 3
         digest = hashlib.sha1(repr(sorted(base.items())).encode("utf-8", "replace")).hexdigest()[:12]
-        agg.hist("answers", f"{ch}:{digest}")
+        agg.hist("answers", f"{order + '|' if order else ''}{ch}:{digest}")
         if table_only:
             agg.case(ch, nontrivial)
             continue
@@ -196,10 +221,10 @@ def run_shard(ctx):
         if nontrivial:
             # bounded-exhaustive ordered selections on a deterministic subset of the corpus,
             # random sequences with repetition on everything
-            if int(ch[:2], 16) % (4 if ctx.tier == "quick" else 2) == 0:
+            if int(ch[:2], 16) % (12 if ctx.tier == "quick" else 2) == 0:
                 qs = [q for q in QUERIES if q not in ("dumps", "ast_dump", "str_results")]
                 seqs += [list(s) for s in itertools.permutations(qs, maxlen)]
-            for _ in range(4):
+            for _ in range(3 if ctx.tier == "quick" else 5):
                 seqs.append([rng.choice(QUERIES) for _ in range(rng.randint(3, 8))])
         else:
             seqs.append([rng.choice(QUERIES) for _ in range(4)])
@@ -250,6 +275,27 @@ def parent_phase(tier, seed, merged):
             tables[hs] = t
     finally:
         shutil.rmtree(cdir, ignore_errors=True)
+    # order sensitivity: the vocabulary corpus answered in one process, forward and reversed
+    otab = {"fwd": {}, "rev": {}}
+    m = merge(run_shards("C13", tier, seed, 2, env={"VERIF_C13_TABLE": "1", "VERIF_C13_ORDER": "1"},
+                         timeout=CONFIG["timeout"][tier]))
+    merged["inconclusive"].extend(m["inconclusive"])
+    for k in m["hists"].get("answers", {}):
+        order, rest = k.split("|", 1)
+        ch, dg = rest.split(":")
+        otab[order].setdefault(ch, set()).add(dg)
+    nord = 0
+    for ch, dgs in otab.get("fwd", {}).items():
+        nord += 1
+        if ch in otab.get("rev", {}) and otab["rev"][ch] != dgs:
+            v = merged["violations"].setdefault(
+                "depends-on-what-was-analysed-before",
+                {"count": 0, "what": "verdict / decompile of the same bytes differ when the corpus is analysed in reversed "
+                                     "order in one process (state carried from one pickle to the next)", "witnesses": []})
+            v["count"] += 1
+            if len(v["witnesses"]) < 3:
+                v["witnesses"].append({"case_hash": ch})
+    merged["counters"]["order_sensitivity_cases"] = nord
     base = tables.get("0", {})
     ncases = 0
     for hs in seeds[1:]:
